@@ -45,6 +45,7 @@ var interpWhitelist = map[string]bool{
 	"(*fmt.wrapError).Unwrap":        true,
 	"(*fmt.wrapErrors).Error":        true,
 	"(*fmt.wrapErrors).Unwrap":       true,
+	"(*strconv.NumError).Unwrap":     true,
 	"(context.backgroundCtx).String": false,
 }
 
@@ -197,6 +198,10 @@ func (m *machine) globalAddr(g *ssa.Global) *value {
 			*p = &cell
 		case "io.Discard":
 			*p = iface{t: types.Typ[types.Int], v: &opaque{kind: "io.Discard"}}
+		case "strconv.ErrSyntax":
+			*p = m.errorsNew("invalid syntax")
+		case "strconv.ErrRange":
+			*p = m.errorsNew("value out of range")
 		case "io.EOF":
 			*p = iface{t: types.Typ[types.Int], v: &opaque{kind: "io.EOF"}}
 		default:
@@ -325,7 +330,7 @@ func (m *machine) termVars(t *Term) []string {
 		switch x.Op {
 		case "var":
 			set[x.Name] = true
-		case "pf_val", "f64_fmt", "f64_of_int", "go.tolower":
+		case "pf_val", "pf32_val", "f64_fmt", "f64_of_int", "go.tolower":
 			set["@uf"] = true
 		}
 	})
